@@ -607,6 +607,11 @@ func (env *SpecEnv) storeKey(sd *StoreDecl, ks []SV) string {
 }
 
 func (env *SpecEnv) storeArr(sd *StoreDecl) string {
+	if t, ok := env.override[sd.KV]; ok {
+		// inside within(snapshot, Store, ...): the snapshot value, not the function's state (an axiom over snapshots must not
+		// make every function look as if it read the store)
+		return t
+	}
 	g := env.e.g()
 	bs := g.SortOf(types.NewSlice(types.Typ[types.Uint8]))
 	env.e.ensureState(sd.KV, fmt.Sprintf("(Array %s %s)", bs, bs))
@@ -1015,7 +1020,6 @@ func (env *SpecEnv) call(x *SExpr) SV {
 		if len(x.Args) == 3 && x.Args[1].Op == "id" {
 			if sd := env.e.r.v.specs.Stores[x.Args[1].S]; sd != nil {
 				sv := argv(0)
-				env.storeArr(sd)
 				save := env.override
 				env.override = map[string]string{}
 				for k, v := range save {
